@@ -10,9 +10,13 @@ import PkVerif.Gen.C17
     blob <id> <extra> set <members> <mergeSets>
     blob <id> <extra> other|raw <mentions>            -> ok
     del <id> <target>          a delete claim <id> (an `other` blob) of <target>      -> ok
+    rm <id>                    the blob disappears from the storage                   -> ok
+    now <t>                    the clock moves on to t (now ≤ t ≤ now+10)              -> ok
     get <METHOD> <0|1 assemble> <id|x> <via>          -> <errorCode> <status|*>
     guard <htype> <0|1 internal>                      -> deny|auth|camli|open
     access <htype> <0|1 internal> <0|1|s-… credentials> … -> 401|pass|handler
+    after-auth <htype> <0|1 internal> <0|1|s-… credentials> …   the same request, sent right after a
+                               credentialed one from the same address              -> 401|pass|handler
     discovery <prefix> <0|1|s-… credentials> …        -> 401|served
     fixed <path>                                      -> auth|open|none
     srvclose                                          -> ok
@@ -21,7 +25,7 @@ credentials: `1` = valid credentials of the configured auth mode, `0` = none, `s
 the request is dressed up (websocket upgrade, empty/garbage Authorization, forwarded-for, …).
 
 ids are decimal numbers, lists are comma separated, `-` is the empty list / absent value, `x` is a
-malformed ref. The clock is fixed at 1000.
+malformed ref. The clock starts at 1000 (seconds) and only moves by `now`.
 -/
 namespace Pk.Drv.C17
 open Pk Pk.Share
@@ -29,6 +33,7 @@ open Pk Pk.Share
 structure St where
   store : List (Nat × Stored) := []
   dels : List (Nat × Nat) := []   -- (deleter, target)
+  now : Nat := 1000
 
 def lookup (l : List (Nat × Stored)) (r : Nat) : Option Stored :=
   match l with
@@ -42,7 +47,7 @@ def isDeleted (dels : List (Nat × Nat)) : Nat → Nat → Bool
   | fuel + 1, r => dels.any (fun p => p.2 == r && !isDeleted dels fuel p.1)
 
 def env (s : St) : Env :=
-  ⟨lookup s.store, isDeleted s.dels (s.dels.length + 1), 1000⟩
+  ⟨lookup s.store, isDeleted s.dels (s.dels.length + 1), s.now⟩
 
 def natArg (w : String) : Option Nat := if w.isEmpty then none else w.toNat?
 
@@ -108,8 +113,16 @@ def step (s : St) (ws : List String) : St × String :=
   | ["del", id, target] =>
     (match natArg id, natArg target with
      | some id, some t =>
-       ({ store := (id, ⟨.other [t], []⟩) :: s.store, dels := (id, t) :: s.dels }, "ok")
+       ({ s with store := (id, ⟨.other [t], []⟩) :: s.store, dels := (id, t) :: s.dels }, "ok")
      | _, _ => (s, "bad-op"))
+  | ["rm", id] =>
+    (match natArg id with
+     | some id => ({ s with store := s.store.filter (fun p => p.1 != id) }, "ok")
+     | none => (s, "bad-op"))
+  | ["now", t] =>
+    (match natArg t with
+     | some t => if s.now ≤ t && t ≤ s.now + 10 then ({ s with now := t }, "ok") else (s, "bad-op")
+     | none => (s, "bad-op"))
   | ["get", m, asm, path, via] =>
     (match isMethod m, boolArg asm, reqRef path, viaArg via with
      | true, some asm, some path, some via =>
@@ -120,6 +133,13 @@ def step (s : St) (ws : List String) : St × String :=
     (match boolArg internal with
      | some i => (s, showGuard (installedGuard Gen.authHandlerTypes (htypeArg ht) i))
      | none => (s, "bad-op"))
+  | "after-auth" :: ht :: internal :: creds :: _ =>
+    -- what an earlier request presented does not matter: this one is judged on its own credentials
+    (match boolArg internal, credsArg creds with
+     | some i, some c =>
+       (s, match guardPasses (installedGuard Gen.authHandlerTypes (htypeArg ht) i) c with
+           | some true => "pass" | some false => "401" | none => "handler")
+     | _, _ => (s, "bad-op"))
   | "access" :: ht :: internal :: creds :: _ =>
     (match boolArg internal, credsArg creds with
      | some i, some c =>
